@@ -195,6 +195,19 @@ Theorem toposort_lists_each_table_once : forall dag fuel start l, toposort dag f
 Proof. exact toposort_nodup. Qed.
 Print Assumptions toposort_lists_each_table_once.
 
+(* the dependencies toposort_tables is given (TableDepsCollector) cover -- per program: equal -- the declared tables a table's
+   lowering instantiates; then every table a table refers to is lowered before it, for every dag *)
+Theorem toposort_lowers_referenced_tables_first : forall dag refs fuel start l,
+  (forall n, incl (refs n) (dag n)) -> toposort dag fuel start = Some l ->
+  forall i n, nth_error l i = Some n -> incl (refs n) (firstn i l).
+Proof. exact toposort_covers_refs. Qed.
+Print Assumptions toposort_lowers_referenced_tables_first.
+
+(* Lowerer::lookup_cid (compared with the code on every call since hooks/lookup-cid.diff) only returns ids held by node_mapping *)
+Theorem lookup_cid_returns_mapped_id : forall m id name c, lookup_cid_m m id name = Some c -> In c (mapping_cids m).
+Proof. exact lookup_cid_m_in. Qed.
+Print Assumptions lookup_cid_returns_mapped_id.
+
 (* ---- utils/id_gen.rs: the generators the SQL back end loads from the RQ it is handed (79f4a51) ---- *)
 
 (* a loaded generator only hands out ids that do not occur in the query, and it starts at most at usize::MAX / 2 + 1, so
